@@ -3,6 +3,7 @@
 -/
 import N2V.Model.World
 import N2V.Lemmas.SchedRun
+import N2V.Lemmas.SchedClosure
 namespace N2V.C17
 open N2V N2V.Sched
 
@@ -96,5 +97,73 @@ theorem uptodate_continues {E : Type} (g : Graph) (a : Run.Args) (c : Choices E)
       Run.phase2 g a c r1.s r1.e r1.perms r1.finishes 0 := by
   unfold Run.build
   simp only [hw, hr, h0, ne_eq, not_true_eq_false, if_false]
+
+/-! ### "Before anything else", and whole invocations -/
+
+/-- **The manifest first, and nothing but what it needs**: when `run::build` asks for a reload, the only builds that ever
+    left `Unknown` (were considered at all) are those the manifest needs.  No command-line target,
+    default or other output has been looked at yet.  (For a failed manifest phase the same follows
+    from `regen_failure_stops` and `Run.want_touch`.) -/
+theorem manifest_phase_considers_only_the_manifest {E : Type} {g : Graph} (gok : GraphOK g) (a : Run.Args)
+    (c : Choices E) (e : E) (n : Nat) (hn : (Run.build g a c e).2.2 = .reload n)
+    (b : Nat) (hb : (Run.build g a c e).1.st b ≠ .unknown) : Needs g a.manifest b := by
+  revert hb hn
+  unfold Run.build
+  simp only []
+  have hw := Run.want_rel gok (Run.fresh a) a.manifest (Run.fresh_inv g a)
+  have ht := want_touch g (Run.fresh a) a.manifest
+  cases hwant : want g (Run.fresh a) a.manifest with
+  | ok u s1 =>
+    rw [hwant] at hw ht
+    simp only []
+    have hfresh : ∀ x, (Run.fresh a).st x = .unknown := fun x => rfl
+    have h1 : ∀ x, s1.st x ≠ .unknown → Needs g a.manifest x := by
+      intro x hx
+      rcases ht x hx with h | h
+      · exact absurd (hfresh x) h
+      · exact h
+    have hk := runLoop_keeps c (runFuel g) s1 e c.perms c.finishes hw.inv
+    cases hres : (runLoop g a.par c (runFuel g) s1 e c.perms c.finishes).result with
+    | ok bb =>
+      cases bb with
+      | true =>
+        simp only []
+        split
+        · intro _ hb; exact h1 b (hk b hb)
+        · intro hn _; exact absurd hn (phase2_ne_reload _ _ _ _ _ _ _ _ _)
+      | false => intro hn _; simp [Run.ofRun] at hn
+    | err m => intro hn _; simp [Run.ofRun] at hn
+    | bug => intro hn _; simp [Run.ofRun] at hn
+    | panic m => intro hn _; simp [Run.ofRun] at hn
+    | stuck => intro hn _; simp [Run.ofRun] at hn
+    | fuel => intro hn _; simp [Run.ofRun] at hn
+  | err m s1 => intro hn _; simp at hn
+  | bad m => intro hn _; simp at hn
+
+open N2V.Work in
+/-- **A whole invocation that regenerates**: when the manifest phase asks for a reload, everything
+    that follows is computed from the tree, clock and log it left (`w1`) alone: the manifest is
+    LOADED AGAIN from `w1` (new graph, new defaults and pools, signatures attached from the log as it
+    is now), targets are resolved and dirtiness decided there by a fresh `Work`; of the first part
+    only its trace and its task count survive.  A manifest that no longer loads is an error and
+    nothing more runs. -/
+theorem invocation_after_regeneration (w : World) (a : InvArgs)
+    (obs1 obs2 : List (List Nat) × List (Nat × Sched.Term)) (l : Load.Loader) (e0 : Env)
+    (hl : loadEnv w a.manifestName = .ok (l, e0)) (n : Nat) (s1 : S) (e1 : Env)
+    (hre : Run.build (schedGraph e0.g) (argsOf l a) (choices a.adopt obs1.1 obs1.2) e0 = (s1, e1, .reload n)) :
+    invoke w a obs1 obs2 =
+      match loadEnv { fs := e1.fs, clock := e1.clock, log := e1.log } a.manifestName with
+      | .error e => ({ fs := e1.fs, clock := e1.clock, log := e1.log }, .err (loadErrKind e),
+                     s1.trace.reverse ++ [Sched.Ev.load])
+      | .ok (l2, e2) =>
+        let r2 := Run.buildReloaded (schedGraph e2.g) (argsOf l2 a) (choices a.adopt obs2.1 obs2.2) e2 n
+        ({ fs := r2.2.1.fs, clock := r2.2.1.clock, log := r2.2.1.log }, ofOutcome r2.2.2,
+         s1.trace.reverse ++ r2.1.trace.reverse) := by
+  unfold invoke
+  rw [hl]
+  simp only []
+  rw [hre]
+  simp only []
+  cases loadEnv { fs := e1.fs, clock := e1.clock, log := e1.log } a.manifestName <;> rfl
 
 end N2V.C17
